@@ -4,9 +4,9 @@
    Coq datatypes.  No Extract Constant. *)
 From Coq Require Import Extraction ExtrOcamlBasic ZArith List.
 Require Import CV.Orient CV.FreeSpace CV.Circuit CV.Hpwl CV.Moves CV.Optimiser CV.DetailedInit CV.DetailedExport CV.DetailedValue.
-Require Import CV.RowNeigh CV.Reorder CV.DetailedRun.
+Require Import CV.ShiftLp CV.RowNeigh CV.Reorder CV.DetailedRun.
 Extraction Language OCaml.
 Extraction "model_run.ml"
   DetailedInit.from_circuit DetailedValue.init_models DetailedExport.write_back Optimiser.ovalue
   DetailedRun.run_swaps DetailedRun.run_reordering DetailedRun.run_passes DetailedRun.place_detailed_model
-  DetailedRun.row_ids DetailedRun.params_ok.
+  DetailedRun.row_ids DetailedRun.params_ok DetailedRun.run_passes_c DetailedRun.place_detailed_model_c.
